@@ -1,6 +1,6 @@
 (* C20 - Packet lifetime and hop budget on the wire honour the request.
    This file holds only the audited statements; proofs are in Proofs/LifetimeProofs.v. *)
-From FlexVerif Require Import Base.Prelude Model.Lifetime Proofs.LifetimeProofs.
+From FlexVerif Require Import Base.Prelude Model.Lifetime Proofs.LifetimeProofs Gen.SrcGeonet Proofs.SrcLifetimeEquiv.
 
 (* Full statement of the "largest representable" clause. It is FALSE of the model
    (and of the code) from 1 000 000 ms upwards: see C20_lt_max_refuted. *)
@@ -57,6 +57,57 @@ Print Assumptions C20_multi_hop_limits.
 Theorem C20_rx_discards_rhl_gt_mhl : forall rhl mhl, mhl < rhl -> rx_hops_ok rhl mhl = false.
 Proof. exact rx_hops_discard. Qed.
 Print Assumptions C20_rx_discards_rhl_gt_mhl.
+
+(* ---- the same clauses on the functions REGENERATED FROM THE SOURCE on every run (Gen/SrcGeonet.v, tools/pyz.py):
+   LT.set_value_in_millis, LT.get_value_in_millis, LT.encode_to_int, BasicHeader.encode_to_int, BasicHeader.set_rhl.
+   For these functions the tie between model and code is the following equalities, for all arguments. *)
+Theorem C20_source_lifetime_encoder_is_the_model : forall v, LT_set_value_in_millis v = lt_encode v.
+Proof. exact src_lt_encode. Qed.
+Print Assumptions C20_source_lifetime_encoder_is_the_model.
+
+Theorem C20_source_lifetime_value_is_the_model : forall m b, 0 <= b <= 3 -> LT_get_value_in_millis m b = lt_value m b.
+Proof. exact src_lt_value. Qed.
+Print Assumptions C20_source_lifetime_value_is_the_model.
+
+Theorem C20_source_basic_header_word_is_the_model : forall ver nh res m b rhl,
+  BasicHeader_encode_to_int ver nh res m b rhl = bh_word ver nh res m b rhl /\ LT_encode_to_int m b = lt_code m b.
+Proof. exact src_bh_word_code. Qed.
+Print Assumptions C20_source_basic_header_word_is_the_model.
+
+Theorem C20_source_decoder_reads_the_lifetime_octet : forall x, 0 <= x ->
+  match BasicHeader_decode_from_int x with
+  | Some (_, _, _, (m, b), _) => (m, b) = lt_of_code (Z.land (Z.shiftr x 8) 255)
+  | None => True
+  end.
+Proof. exact src_bh_decode_lt. Qed.
+Print Assumptions C20_source_decoder_reads_the_lifetime_octet.
+
+(* the lifetime the source puts on the wire for a request of v ms: get_value_in_millis (set_value_in_millis v) *)
+Theorem C20_source_lt_never_exceeds : forall v, 0 <= v -> src_wire_lifetime v <= v.
+Proof. exact src_lt_le. Qed.
+Print Assumptions C20_source_lt_never_exceeds.
+
+Theorem C20_source_lt_max_partial : forall v m b, 0 <= v < 1000000 -> 0 <= m <= 63 -> 0 <= b <= 3 ->
+  LT_get_value_in_millis m b <= v -> LT_get_value_in_millis m b <= src_wire_lifetime v.
+Proof. exact src_lt_max_partial. Qed.
+Print Assumptions C20_source_lt_max_partial.
+
+Theorem C20_source_lt_max_refuted : src_wire_lifetime 1000000 = 0 /\ LT_get_value_in_millis 10 3 = 1000000.
+Proof. exact src_lt_refuted_1e6. Qed.
+Print Assumptions C20_source_lt_max_refuted.
+
+Theorem C20_source_lt_nonzero_partial : forall v, 50 <= v < 1000000 -> 0 < src_wire_lifetime v.
+Proof. exact src_lt_nonzero_partial. Qed.
+Print Assumptions C20_source_lt_nonzero_partial.
+
+Theorem C20_source_lt_fields_in_range : forall v, let '(m, b) := LT_set_value_in_millis v in 0 <= m <= 63 /\ 0 <= b <= 3.
+Proof. exact src_lt_fields. Qed.
+Print Assumptions C20_source_lt_fields_in_range.
+
+Theorem C20_source_forwarded_hop_limit_is_an_octet : forall ver nh res lt rhl,
+  BasicHeader_set_rhl ver nh res lt rhl = (ver, nh, res, lt, rhl mod 256).
+Proof. exact src_set_rhl. Qed.
+Print Assumptions C20_source_forwarded_hop_limit_is_an_octet.
 
 (* Non-vacuity: concrete inputs meeting the hypotheses. *)
 Example C20_example : lt_encode 1050 = (21, 0) /\ lt_encode 15000 = (15, 1) /\
